@@ -21,7 +21,7 @@ assumed("pd.rowwise", "pandas element-wise and row-filter operations act row by 
                       "(a NEW object), dropna() drops rows with a NaN/None cell (not +-inf), np.isfinite is true exactly for ordinary numbers, "
                       ".loc[mask, col] = v writes in place, index.isin(other.index) is membership for unique labels, join is a left join on "
                       "the index, concat(axis=0) stacks rows, sort_index reorders rows only, Series.map(dict) maps values (missing key -> NaN)")
-assumed("pd.fill", "Series.interpolate / ffill / bfill change only missing cells; bfill after ffill leaves no cell missing when the column has at least one present value")
+assumed("pd.fill", "Series.interpolate / ffill / bfill change only missing cells; a forward fill and a backward fill applied one after the other leave no cell missing when the column has at least one present value")
 assumed("pd.resample", "Series.resample(rule).agg() groups by calendar period of the series' own index (its timezone as is) and applies the "
                        "named aggregate to the series' values; recorded structurally as (aggregate, column, frame, rule), not computed")
 
@@ -116,6 +116,7 @@ class RFrame:
         self.index_tag = index_tag
         self.label = label
         self.mutated = False
+        self.colflags = {}  # column -> set of {"ffill", "bfill"}: fills applied since the column was last written otherwise
         self.filters = []  # textual record of row filters applied (for aggregate provenance)
         _counter[0] += 1
         self.uid = _counter[0]
@@ -222,7 +223,9 @@ class RFrame:
         if isinstance(key, str):
             if key not in self.cells:
                 raise SymRaise("KeyError", key, node, ("KeyError", "LookupError", "Exception"))
-            return RSeries(self, self.cells[key], key)
+            out = RSeries(self, self.cells[key], key)
+            out.fills = set(self.colflags.get(key, ()))
+            return out
         if isinstance(key, list) and all(isinstance(k, str) for k in key):
             for k in key:
                 if k not in self.cells:
@@ -237,6 +240,7 @@ class RFrame:
         if not isinstance(key, str):
             raise Unsupported("frame store with a non-string key", node)
         self.cells[key] = as_cell(interp, value, node)
+        self.colflags[key] = set(getattr(value, "fills", ())) if isinstance(value, RSeries) else set()
         self.mutated = True
 
     def sym_setattr(self, interp, name, value, node):
@@ -310,6 +314,8 @@ def as_cell(interp, value, node):
         return Cell(NUM, to_z3(value))
     if value is None:
         return NAN_CELL
+    if isinstance(value, RMask):
+        return Cell(NUM, to_z3(value.cond) if not isinstance(value.cond, bool) else z3.BoolVal(value.cond))
     raise Unsupported(f"cell value of type {type(value).__name__}", node)
 
 
@@ -331,6 +337,7 @@ class _Loc:
             if col not in f.cells:
                 f.cells[col] = NAN_CELL
             f.cells[col] = cell_ite(mask.cond, as_cell(interp, value, node), f.cells[col])
+            f.colflags.pop(col, None)
             f.mutated = True
             return
         raise Unsupported(".loc[] write other than [mask, column]", node)
@@ -401,6 +408,17 @@ class RIndex:
                     return RMask(self.frame, other.frame.member(), f"index.isin(frame#{other.frame.uid})")
                 raise Unsupported("index.isin of a non-index", node)
             return _Callable(isin)
+        if name in ("difference", "intersection", "union"):
+            def setop(other, *a, **k):
+                if not isinstance(other, RIndex):
+                    raise Unsupported(f"index.{name} of a non-index", node)
+                m, o = self.frame.member(), other.frame.member()
+                cond = {"difference": z3.And(m, z3.Not(o)), "intersection": z3.And(m, o), "union": z3.Or(m, o)}[name]
+                return RIndex(self.frame.derive(mult=z3.If(cond, 1, 0), note=f"{name}(frame#{other.frame.uid})"))
+            return _Callable(setop)
+        if name == "empty":
+            n = self.frame.sym_len(interp, node)
+            return n == 0
         if name in ("tz_convert", "tz_localize"):
             def tz(arg=None, *a, **k):
                 return RIndex(self.frame.derive(index_tag=f"{name}({arg!r}) of {self.frame.index_tag}"))
@@ -410,6 +428,33 @@ class RIndex:
         if name in ("tz", "tzinfo"):
             return SOpaque(f"index.tz of {self.frame.index_tag}")
         raise Unsupported(f"Index.{name} (row-wise model)", node)
+
+
+def has_present(interp, frame, col):
+    """ghost: 'the column has at least one present (non-missing) cell' -- a global fact, tied to the arbitrary row by
+    member & present => has_present"""
+    return z3.Bool(f"has_present!{frame.root}!{col}")
+
+
+def fill_only_missing(interp, series, total=False):
+    """a series equal to `series` on every non-missing cell; a missing cell becomes a number or stays missing (unknown),
+    and becomes a number when `total` and the column has a present cell"""
+    run = interp.run
+    c = series.cell
+    was_nan = c.is_nan()
+    k2 = run.fresh_int("filled_kind")
+    v2 = run.fresh_real("filled_val")
+    run._add(z3.Or(k2 == NUM, k2 == NAN))
+    h = has_present(interp, series.frame, series.name)
+    present = _not(was_nan)
+    run._add(z3.Implies(z3.And(series.frame.member(), to_z3(present) if not isinstance(present, bool) else z3.BoolVal(present)), h))
+    # a fill cannot create a value out of nothing
+    run._add(z3.Implies(z3.And(series.frame.member(), k2 == NUM), h))
+    if total:
+        run._add(z3.Implies(h, k2 == NUM))
+    out = RSeries(series.frame, cell_ite(was_nan, Cell(k2, v2), c), series.name)
+    out.fills = set()
+    return out
 
 
 class RSeries:
@@ -433,23 +478,19 @@ class RSeries:
                     return RSeries(self.frame, Cell(c.kind, z3.If(c.val, 1, 0)), self.name)
                 return self
             return _Callable(astype)
-        if name in ("interpolate", "ffill", "bfill", "fillna"):
+        if name in ("interpolate", "ffill", "bfill"):
             def fill(*a, **k):
-                # assumed pandas contract: filling methods change ONLY missing cells; what a missing cell becomes is unknown
-                # (a number or still missing), except that bfill after ffill leaves nothing missing when the column has any
-                # present value
+                # assumed pandas contract: the filling methods change ONLY missing cells; what a missing cell becomes is unknown
+                # (a number or still missing), except that a forward fill and a backward fill applied one after the other (in
+                # either order) leave nothing missing when the column has any present value
+                if k.get("inplace"):
+                    raise Unsupported("in-place fill", node)
                 use(interp, "pd.fill")
-                run = interp.run
-                was_nan = c.is_nan()
-                k2 = run.fresh_int("filled_kind")
-                v2 = run.fresh_real("filled_val")
-                run._add(z3.Or(k2 == NUM, k2 == NAN))
-                has_any = z3.Bool(f"has_present!{self.frame.uid}!{self.name}")
-                run._add(z3.Implies(z3.And(self.frame.member(), _not(was_nan) if not isinstance(was_nan, bool) else z3.BoolVal(not was_nan)), has_any))
-                if name == "bfill" and getattr(self, "ffilled", False):
-                    run._add(z3.Implies(has_any, k2 == NUM))
-                out = RSeries(self.frame, cell_ite(was_nan, Cell(k2, v2), c), self.name)
-                out.ffilled = name == "ffill" or (getattr(self, "ffilled", False) and name != "ffill")
+                fills = set(getattr(self, "fills", ()))
+                kind = {"ffill": "ffill", "bfill": "bfill"}.get(name)
+                total = kind is not None and ({"ffill", "bfill"} - {kind}) <= fills
+                out = fill_only_missing(interp, self, total)
+                out.fills = fills | ({kind} if kind else set())
                 return out
             return _Callable(fill)
         if name == "copy":
@@ -812,6 +853,19 @@ def install():
     @libmodels.api("string")
     def _string(interp, args, kwargs, node, frame):
         return z3.StringVal(args[0])
+
+    @libmodels.api("fill_only_missing")
+    def _fill_only_missing(interp, args, kwargs, node, frame):
+        return fill_only_missing(interp, args[0], False)
+
+    @libmodels.api("column_has_present")
+    def _column_has_present(interp, args, kwargs, node, frame):
+        f, c = args
+        h = has_present(interp, f, c)
+        cell = f.cells[c]
+        nn = _not(cell.is_nan())
+        interp.run._add(z3.Implies(z3.And(f.member(), to_z3(nn) if not isinstance(nn, bool) else z3.BoolVal(nn)), h))
+        return h
 
     @libmodels.api("has_column")
     def _has_column(interp, args, kwargs, node, frame):
